@@ -512,6 +512,7 @@ class Emitter:
         self.recv = "parser" if f.parent is not None else "self"
         self.nloop = 0
         self.nassert = 0
+        self.c07 = None
         self.depth = {"lhs": 0}
 
     def walk(self, stmts, opened, closed):
@@ -587,6 +588,8 @@ class Emitter:
         P = {t for t in self.alphabet if exits.get(t) == {"P"}}
         N = {t for t in self.alphabet if exits.get(t) == {"N"}}
         ens = []
+        if self.c07 is not None and s is self.c07[0]["loop"]:
+            ens.append(self.c07[1] % (r, r) + ",   // [C07] the operator loop is left only on a token that is no operator or binds looser than min_bp")
         if P:
             ens.append("%s ==> %s.pos > p_%d,   // [C03]" % (tokset("c_%d" % k, P, self.alphabet), r, k))
         if N:
@@ -627,6 +630,8 @@ class Emitter:
             ens.append(("%s.rstack() == %s.rstack()" % (fin, o), "[C02] every node opened is closed again"))
         else:
             ens = macro_clauses("STEP", [fin, o])
+        if self.c07 is not None:
+            ens.append((self.c07[1] % (fin, fin), "[C07] on return the next token is not an operator that binds at least as tight as min_bp"))
         if P:
             ens.append(("%s ==> %s.pos > %s.pos" % (tokset("%s.current" % o, P, self.alphabet), fin, o), "[C03] progress on these tokens (termination of callers' loops)"))
         if N:
@@ -651,6 +656,113 @@ class Emitter:
         if f.has_ret:
             self.ed.insert(st[f.i_arrow + 1].s, "(r: ")
             self.ed.insert(st[f.i_body - 1].e, ")")
+
+
+# ----------------------------------------------------------------------------------------------
+# C07: binding discipline of emitted Pratt functions against a table read from the grammar text
+# ----------------------------------------------------------------------------------------------
+def c07_prepare(ix, f, body, rule, tabs, right_names):
+    """-> (info dict, None) or (None, reason).  info: name, arms [(loop arm, branch index, lbp, rbp,
+    rassoc, tokens, if-node, rec-node or None)], prefix [(rec node, branch index, power)], nbranches."""
+    import pratt
+    sig = ix.text(f.i_lparen, f.i_rparen)
+    if "min_bp" not in sig:
+        return None, "no binding powers are emitted for this rule (one recursive branch, or only left-recursive branches)"
+    tb = tabs.get(rule)
+    if tb is None:
+        return None, "rule not found as a left-recursive rule in the grammar text"
+    br = tb["branches"]
+    n = len(br)
+    loops = [s for s in body if s.kind == "loop"]
+    if not loops or body[-1].kind not in ("loop", "pure") or (body[-1].kind == "pure" and (len(body) < 2 or body[-2].kind != "loop")):
+        return None, "unexpected shape: the operator loop is not the last statement"
+    lp = loops[-1]
+    ms = [s for s in lp.body if s.kind == "match" and s.recv is not None]
+    if len(ms) != 1:
+        return None, "unexpected shape: operator loop without a single match on current"
+    arms = [a for a in ms[0].arms if not a.wild]
+    if any(a.guard not in (None,) for a in ms[0].arms):
+        return None, "an operator arm is guarded by a predicate (the predicate decides whether the token is an operator)"
+    left_idx = [i for i, b in enumerate(br) if b["kind"] in ("left", "leftright")]
+    if len(left_idx) != len(arms):
+        return None, "grammar text has %d left-recursive branches, emitted loop has %d operator arms" % (len(left_idx), len(arms))
+    out_arms = []
+    seen = set()
+    for a, bi in zip(arms, left_idx):
+        if a.toks & seen:
+            return None, "an operator token starts two branches"
+        seen |= a.toks
+        rassoc = br[bi]["kind"] == "leftright" and bool(a.toks & right_names)
+        lbp, rbp = pratt.powers(n, bi, br[bi]["kind"], rassoc)
+        ifs = [s for s in a.body if s.kind == "if" and re.fullmatch(r"\d+\s*<\s*min_bp", s.cond.strip())]
+        recs = [s for s in a.body if s.kind == "rec"]
+        if len(ifs) != 1 or a.body[0] is not ifs[0]:
+            return None, "unexpected shape: operator arm does not start with the binding-power test"
+        if br[bi]["kind"] == "leftright" and len(recs) != 1:
+            return None, "unexpected shape: infix arm without exactly one recursive call"
+        out_arms.append(dict(arm=a, branch=bi, lbp=lbp, rbp=rbp, rassoc=rassoc, toks=sorted(a.toks), ifn=ifs[0], rec=recs[0] if recs else None, kind=br[bi]["kind"]))
+    # prefix branches: recursive calls outside the operator loop, in order
+    pre = []
+
+    def find_recs(stmts):
+        for s in stmts:
+            if s is lp:
+                continue
+            if s.kind == "rec":
+                pre.append(s)
+            elif s.kind == "loop":
+                find_recs(s.body)
+            elif s.kind == "match":
+                for a in s.arms:
+                    find_recs(a.body)
+            elif s.kind == "if":
+                find_recs(s.then)
+                if s.els:
+                    find_recs(s.els)
+    find_recs(body)
+    right_idx = [i for i, b in enumerate(br) if b["kind"] == "right"]
+    if len(right_idx) != len(pre):
+        return None, "grammar text has %d prefix branches, emitted code has %d recursive calls outside the operator loop" % (len(right_idx), len(pre))
+    prefix = [(s, bi, 2 * (n - bi)) for s, bi in zip(pre, right_idx)]
+    return dict(rule=rule, arms=out_arms, prefix=prefix, n=n, loop=lp), None
+
+
+def c07_emit(ix, ed, f, info, alphabet):
+    """Insert the [C07] assertions; returns (spec items text, ensures clause text for rec and its loop)."""
+    st = ix.st
+    rule = info["rule"]
+    fn = "c07_lbp_%s" % rule
+    cases = []
+    for a in info["arms"]:
+        for t in a["toks"]:
+            cases.append("Token::%s => %dint," % (t, a["lbp"]))
+    spec = "// [C07] left binding power of the operator tokens of rule `%s`, from the grammar text (branch order, `right` declarations)\n" % rule
+    spec += "pub open spec fn %s(t: Token) -> int { match t { %s _ => 0int } }\n" % (fn, " ".join(cases))
+    # the table satisfies the property's inequalities
+    facts = []
+    for a in info["arms"]:
+        if a["kind"] != "leftright":
+            continue
+        for b in info["arms"]:
+            want = "true" if (b["branch"] < a["branch"] or (b["branch"] == a["branch"] and a["rassoc"])) else "false"
+            facts.append("((%d >= %d) == %s)" % (b["lbp"], a["rbp"], want))
+    for (s, bi, pw) in info["prefix"]:
+        for b in info["arms"]:
+            want = "true" if b["branch"] < bi else "false"
+            facts.append("((%d >= %d) == %s)" % (b["lbp"], pw, want))
+    spec += ("// [C07] an operator is absorbed into a right operand exactly if it comes from an earlier (tighter) branch, or from the\n"
+             "// same branch when that branch is right-associative; a prefix operator's operand absorbs exactly the tighter operators\n"
+             "pub proof fn lemma_c07_table_%s()\n    ensures %s,   // [C07]\n{ }\n" % (rule, " && ".join(facts) if facts else "true"))
+    for a in info["arms"]:
+        ed.insert(st[a["ifn"].i1].e, "\n                        assert(%d >= min_bp);   // [C07] only operators binding at least as tight as the caller's minimum are absorbed" % a["lbp"])
+        if a["rec"] is not None:
+            lit = a["rec"].args[2] if len(a["rec"].args) >= 4 else "?"
+            ed.insert(st[a["rec"].i0].s, "assert(%s == %d);   // [C07] right binding power of this branch per the grammar's precedence table\n                        " % (lit, a["rbp"]))
+    for (s, bi, pw) in info["prefix"]:
+        lit = s.args[2] if len(s.args) >= 4 else "?"
+        ed.insert(st[s.i0].s, "assert(%s == %d);   // [C07] operand of a prefix operator: binding power of its branch\n                    " % (lit, pw))
+    clause = "(%s(%%s.current) == 0 || %s(%%s.current) < min_bp)" % (fn, fn)
+    return spec, clause
 
 
 def annotate(ix, ed, report, skeleton_only=False):
@@ -685,6 +797,16 @@ def annotate(ix, ed, report, skeleton_only=False):
     st = ix.st
     rep = {"functions": {}, "fixpoint_rounds": rounds, "no_progress_edges": sorted("%s->%s" % e for e in it.edges), "external": sorted(ext_keys)}
     other = []
+    tabs = None
+    c07rep = {}
+    c07_specs = []
+    if report.get("grammar_text"):
+        import pratt
+        try:
+            tabs = pratt.tables(report["grammar_text"])
+        except Exception as e:
+            tabs = None
+            c07rep["_error"] = "%s: %s" % (type(e).__name__, e)
     for key, (f, body) in fobj.items():
         em = Emitter(ix, ed, f, key, it, alphabet, rank, rep)
         if body is None:
@@ -692,6 +814,17 @@ def annotate(ix, ed, report, skeleton_only=False):
             ed.insert(st[f.i_attr].s, "#[verifier::external] ")
             rep["functions"][key] = {"assumed": True}
             continue
+        if f.parent is not None and tabs is not None and not skeleton_only:
+            rule = key[len("rule_"):-len("::rec")]
+            info, why = c07_prepare(ix, f, body, rule, tabs, tabs.get("_right", set()))
+            if info is None:
+                c07rep[rule] = {"covered": False, "reason": why}
+            else:
+                sp, clause = c07_emit(ix, ed, f, info, alphabet)
+                c07_specs.append(sp)
+                em.c07 = (info, clause)
+                c07rep[rule] = {"covered": True, "branches": [dict(branch=a["branch"], kind=a["kind"], tokens=a["toks"], lbp=a["lbp"], rbp=a["rbp"], right_assoc=a["rassoc"]) for a in info["arms"]],
+                                "prefix": [dict(branch=bi, power=pw) for (_, bi, pw) in info["prefix"]]}
         spec = em.emit_spec(body)
         em.name_ret()
         ed.insert(st[f.i_body].s, spec)
@@ -727,6 +860,7 @@ def annotate(ix, ed, report, skeleton_only=False):
         other.extend(unk)
         rep["functions"][key] = {"P": sorted(it.P[key]), "N": sorted(it.N[key]), "C": sorted(it.C[key]), "rank": rank.get(key, 0), "loops": em.nloop}
     rep["unrecognised_statements"] = other
+    rep["c07"] = c07rep
     report["annotator"] = rep
     # assumed contracts of E8 functions
     ext_specs = []
@@ -737,4 +871,4 @@ def annotate(ix, ed, report, skeleton_only=False):
                 ext_specs.append("pub assume_specification<'a> [Parser::<'a>::%s] %s -> (r: Option<()>)\n    requires old(p).wf(),\n    ensures (r is Some ==> final(p).step(old(p))), (r is None ==> old(p).in_ordered_choice && final(p).wf() && final(p).same_input(old(p))),\n        (!old(p).in_ordered_choice ==> !final(p).in_ordered_choice);\n" % (f.name, sig))
             else:
                 ext_specs.append("pub assume_specification<'a> [Parser::<'a>::%s] %s\n    requires old(p).wf(), !old(p).in_ordered_choice,\n    ensures final(p).step(old(p)), !final(p).in_ordered_choice;\n" % (f.name, sig))
-    report["ext_specs"] = ext_specs
+    report["ext_specs"] = ext_specs + c07_specs
